@@ -406,8 +406,8 @@ Print Assumptions C19_future_stamp_contrast.
    about the code as it is (C19_no_torn_visible_any_directory: it is preserved, so no process of
    the current code can break it); it excludes directories written by versions before 19ec63c or
    damaged by hand.  For those the implementation does NOT meet the property: see
-   C19_preexisting_torn_file_witness (known finding C19-F5, reproduced on /repo by the harness)
-   and, for the proposed repair fix-F5 (parse_fallback, NOT in /repo), C19_f5_*. *)
+   C19_preexisting_torn_file_witness (C19-F5: the behaviour before fix commit 8dfe516) and, for
+   the code as it is now (8dfe516: parse_fallback = true), C19_f5_*, which need no dir_ok at all. *)
 
 Theorem C19_no_torn_visible_any_directory : forall c ks,
   cleanup_outside_lock c = false -> forallb is_fixed_kind ks = true -> no_torn_visible_from c ks.
@@ -449,7 +449,8 @@ Theorem C19_leftovers_example :
 Proof. exact leftovers_example. Qed.
 Print Assumptions C19_leftovers_example.
 
-(* OPEN FINDING C19-F5 (the code as it is, /repo): dir_ok cannot be dropped.  A final-name file
+(* RECORD of the repaired defect C19-F5 (behaviour BEFORE fix commit 8dfe516, parse_fallback =
+   false): without the parse fall-back dir_ok cannot be dropped.  A final-name file
    that is already torn when the processes start is neither healed nor avoided: the load of that
    version ends with the parse error, the file is kept. *)
 Theorem C19_preexisting_torn_file_witness :
@@ -459,7 +460,12 @@ Theorem C19_preexisting_torn_file_witness :
 Proof. exact preexisting_torn_file_witness. Qed.
 Print Assumptions C19_preexisting_torn_file_witness.
 
-(* PROPOSED repair fix-F5 (parse_fallback = true; /root/work/C19/fix-F5.diff, not in /repo): a cache
+(* THE CODE AS IT IS (fix commit 8dfe516, C19-F5: parse_fallback = true; the harness default
+   VERIF_C19_FIXED=2 drives /repo against the model with this switch on).  One model load = ONE
+   version; a MERGED request ('a,b': several versions into one schema) is a sequence of such loads
+   whose results are combined by the loader -- that the combination equals the bundled merge when a
+   later file is torn or missing is TESTED ONLY (harness: merged requests in both orders, loaded
+   schema compared with the bundled merge by libraries, versions, tag count and names).  A cache
    copy that does not parse falls back to the installed file.  Then a finished load of a bundled
    version has returned the bundled schema from EVERY directory state s0, no requirement at all.
    (The torn file is still KEPT -- the repair does not delete it; C19_f5_torn_example.) *)
